@@ -1,7 +1,8 @@
 //! C09 / C10-B — BackwardEngine::query on generated Horn-style knowledge bases.
 //! case  := `<cfg> <facts> <query> <rules>`
 //!   cfg   := `<D|B|I><max_depth>s<max_solutions>`            e.g. `D3s1`
-//!   facts := `-` | `F<i>=<val>,…`     val := `t` | `f` | `n<int>` (Number) | `i<int>` (Integer) | `s<word>` (String)
+//!   facts := `-` | `F<i>=<val>,…`     val := `t` | `f` | `n<int>` (Number) | `i<int>` (Integer) | `s<word>` (String;
+//!            `<word>` may be empty = the empty string, and `_` in it stands for a blank: `sa_b` = "a b", `s_` = " ")
 //!   query := atom                      atom := `F<i>.<op>.<val>`   op := eq|ne|gt|lt|ge|le
 //!   rules := `-` | rule;rule;…         rule := `<cond>~F<i>:=<val>+F<j>:=<val>…`
 //!   cond  := prefix notation, tokens separated by `,`:  `&` c c | `/` c c | atom
@@ -23,7 +24,7 @@ fn parse_val(s: &str) -> Option<Value> {
         'f' if s == "f" => Some(Value::Boolean(false)),
         'n' => Some(Value::Number(s[1..].parse::<i64>().ok()? as f64)),
         'i' => Some(Value::Integer(s[1..].parse().ok()?)),
-        's' => Some(Value::String(s[1..].to_string())),
+        's' => Some(Value::String(s[1..].replace('_', " "))),
         _ => None,
     }
 }
@@ -34,7 +35,7 @@ fn show_val(v: &Value) -> String {
         Value::Boolean(false) => "f".into(),
         Value::Number(x) if x.fract() == 0.0 && x.abs() < 1e15 => format!("n{}", *x as i64),
         Value::Integer(i) => format!("i{}", i),
-        Value::String(s) if s.chars().all(|c| c.is_ascii_alphanumeric()) => format!("s{}", s),
+        Value::String(s) if s.chars().all(|c| c.is_ascii_alphanumeric() || c == ' ') => format!("s{}", s.replace(' ', "_")),
         _ => "?".into(),
     }
 }
@@ -239,14 +240,28 @@ fn rand_cond(rng: &mut Rng, nf: u64, horn: bool, depth: u32) -> String {
     format!("{},{},{}", c, rand_cond(rng, nf, horn, depth + 1), rand_cond(rng, nf, horn, depth + 1))
 }
 
-/// consistent-Horn KB: one value per field (`vals`), conditions are And-trees of equality atoms
-fn gen_horn(rng: &mut Rng) -> String {
+/// string literals of the string family: the EMPTY string (`s`), one-character strings, strings with blanks (`_`),
+/// none of which reads as a number (`Value::to_number` parses strings)
+const STR_LITS: [&str; 10] = ["s", "s", "s", "sa", "sx", "s_", "sa_b", "s_a", "sb_", "sab"];
+
+/// consistent-Horn KB: one value per field (`vals`), conditions are And-trees of equality atoms;
+/// `strs`: half of the fields hold a string of STR_LITS (dead-end literal: another string, often the empty one)
+fn gen_horn(rng: &mut Rng, strs: bool) -> String {
     let nf = rng.range(3, NF);
-    let vals: Vec<String> = (0..nf).map(|_| rand_val(rng, true)).collect();
+    let vals: Vec<String> = (0..nf)
+        .map(|_| if strs && rng.chance(1, 2) { rng.pick(&STR_LITS).to_string() } else { rand_val(rng, true) })
+        .collect();
     let atom = |f: u64, rng: &mut Rng, vals: &Vec<String>| {
         // mostly the consistent value; sometimes a value that can never hold (dead end)
         if rng.chance(1, 10) {
-            let other = if vals[f as usize] == "t" { "f" } else { "t" };
+            let v = &vals[f as usize];
+            let other = if strs && v.starts_with('s') {
+                if v == "s" { "sa" } else { "s" }
+            } else if v == "t" {
+                "f"
+            } else {
+                "t"
+            };
             format!("F{}.eq.{}", f, other)
         } else {
             format!("F{}.eq.{}", f, vals[f as usize])
@@ -347,11 +362,70 @@ fn gen_shape(rng: &mut Rng) -> String {
     format!("{} F5.eq.t {}", facts, rules.join(";"))
 }
 
+/// string-literal family (goal / sub-goal / fact literals that are the empty string, one character, or contain blanks).
+/// A literal travels through text twice: the query string, and `condition_to_goal_pattern` -> `parse_goal_pattern` ->
+/// `parse_value_string` when a rule condition becomes a sub-goal (one copy of that parser per strategy: DFS/iterative
+/// and BFS). All KBs here give every field at most one value besides the initial one.
+fn gen_strlit(rng: &mut Rng) -> String {
+    let s = *rng.pick(&STR_LITS);
+    let o = loop {
+        let o = *rng.pick(&STR_LITS);
+        if o != s {
+            break o;
+        }
+    };
+    let eqne = |rng: &mut Rng| if rng.chance(2, 3) { "eq" } else { "ne" };
+    match rng.below(6) {
+        // the goal compares a field that is (or is not) that string in the facts; no rule can change it
+        0 => {
+            let held = if rng.chance(2, 3) { s } else { o };
+            let rules = if rng.chance(1, 2) { "-" } else { "F6.eq.n1~F1:=t" };
+            format!("F6=n1,F0={} F0.{}.{} {}", held, eqne(rng), s, rules)
+        }
+        // the goal's string has to be derived by one rule (or the rule derives another string)
+        1 => {
+            let made = if rng.chance(3, 4) { s } else { o };
+            let init = if rng.chance(1, 3) { format!(",F0={}", made) } else { String::new() };
+            format!("F6=n1{} F0.{}.{} F6.eq.n1~F0:={}", init, eqne(rng), s, made)
+        }
+        // a rule condition on the string is not satisfied by the facts and must be established by another rule
+        2 => {
+            let made = if rng.chance(4, 5) { s } else { o };
+            let mut rules = vec![format!("F6.eq.n1~F0:={}", made), format!("F0.eq.{}~F5:=t", s)];
+            if rng.chance(1, 3) {
+                rules.push("F7.eq.t~F5:=t".to_string()); // dead end
+            }
+            rng.shuffle(&mut rules);
+            format!("F6=n1 F5.eq.t {}", rules.join(";"))
+        }
+        // the same one level deeper, string conditions on two fields (conjunction, either order)
+        3 => {
+            let s2 = *rng.pick(&STR_LITS);
+            let mut rules = vec![
+                "F6.eq.n1~F2:=t".to_string(),
+                format!("F2.eq.t~F0:={}", s),
+                format!("F6.eq.n1~F1:={}", s2),
+                if rng.chance(1, 2) { format!("&,F0.eq.{},F1.eq.{}~F5:=t", s, s2) } else { format!("&,F1.eq.{},F0.eq.{}~F5:=t", s2, s) },
+            ];
+            rng.shuffle(&mut rules);
+            format!("F6=n1 F5.eq.t {}", rules.join(";"))
+        }
+        // `!=` on the string as a rule condition: the field holds exactly that string and nothing changes it
+        // (goal must not be provable), or holds another string (provable at once)
+        4 => {
+            let held = if rng.chance(2, 3) { s } else { o };
+            format!("F6=n1,F0={} F5.eq.t F0.ne.{}~F5:=t", held, s)
+        }
+        // consistent-Horn KB, string-heavy
+        _ => gen_horn(rng, true),
+    }
+}
+
 fn gen(rng: &mut Rng, n: usize, _tier: &str) -> Vec<String> {
     let mut out = Vec::new();
     for i in 0..n {
         let body = match i % 4 {
-            0 | 1 => gen_horn(rng),
+            0 | 1 => gen_horn(rng, false),
             2 => gen_general(rng),
             _ => gen_shape(rng),
         };
@@ -390,6 +464,14 @@ fn gen(rng: &mut Rng, n: usize, _tier: &str) -> Vec<String> {
             for _ in 0..2 {
                 out.push(format!("{}{}s1 {}", strat, rng.range(2, 4), body));
             }
+        }
+    }
+    // string-literal family: every problem under EVERY strategy (the value parser exists once per strategy), max_solutions 1
+    for _ in 0..n / 10 {
+        let body = gen_strlit(rng);
+        let depth = rng.range(1, 5);
+        for strat in ["D", "B", "I"] {
+            out.push(format!("{}{}s1 {}", strat, depth, body));
         }
     }
     out
